@@ -99,11 +99,15 @@ namespace pika::threads::detail {
 
         while (!exit_funcs_.empty())
         {
+            // Remove the callback from the list while the lock is still held:
+            // callbacks registered while the lock is released are pushed to
+            // the front of the list and must not be popped unexecuted.
+            auto f = std::move(exit_funcs_.front());
+            exit_funcs_.pop_front();
             {
                 pika::detail::unlock_guard<std::unique_lock<pika::detail::spinlock>> ul(l);
-                if (!exit_funcs_.front().empty()) exit_funcs_.front()();
+                if (!f.empty()) f();
             }
-            exit_funcs_.pop_front();
         }
         ran_exit_funcs_ = true;
     }
